@@ -401,6 +401,20 @@ func (grid *RegularGrid) removeQuadFromCell(toRemove *Quad, x uint, y uint) {
 
 func (grid *RegularGrid) mergeQuads(existingQuad *Quad, newQuad *Quad) {
 
+	centerDiff := Sub(newQuad.Center, existingQuad.Center)
+	extentsDiff := Sub(newQuad.Extents, existingQuad.Extents)
+	mergedCenter := Add(existingQuad.Center, Mul(centerDiff, 0.2))
+	mergedExtents := Add(existingQuad.Extents, Mul(extentsDiff, 0.2))
+
+	// The merged quad lies between the two quads, which the grid contains, but
+	// rounding can push its footprint over the border of the grid. Fit the grid
+	// to it before any cell coordinate is computed: growing the grid moves its
+	// origin.
+	mergedMin := Sub(mergedCenter, mergedExtents)
+	mergedMax := Add(mergedCenter, mergedExtents)
+	grid.ExpandToFitPoint(&mergedMin)
+	grid.ExpandToFitPoint(&mergedMax)
+
 	minPoint := Sub(existingQuad.Center, existingQuad.Extents)
 	maxPoint := Add(existingQuad.Center, existingQuad.Extents)
 	minXGridCoord0 := (uint)(math.Floor((float64)(minPoint.x-grid.Min.x) / (float64)(grid.Resolution)))
@@ -408,14 +422,12 @@ func (grid *RegularGrid) mergeQuads(existingQuad *Quad, newQuad *Quad) {
 	maxXGridCoord0 := (uint)(math.Floor((float64)(maxPoint.x-grid.Min.x) / (float64)(grid.Resolution)))
 	maxYGridCoord0 := (uint)(math.Floor((float64)(maxPoint.z-grid.Min.z) / (float64)(grid.Resolution)))
 
-	centerDiff := Sub(newQuad.Center, existingQuad.Center)
-	extentsDiff := Sub(newQuad.Extents, existingQuad.Extents)
-	existingQuad.Center.Add(Mul(centerDiff, 0.2))
-	existingQuad.Extents.Add(Mul(extentsDiff, 0.2))
+	existingQuad.Center = mergedCenter
+	existingQuad.Extents = mergedExtents
 
 	// calculate the min cell and max cell again:
-	minPoint = Sub(existingQuad.Center, existingQuad.Extents)
-	maxPoint = Add(existingQuad.Center, existingQuad.Extents)
+	minPoint = mergedMin
+	maxPoint = mergedMax
 	minXGridCoord1 := (uint)(math.Floor((float64)(minPoint.x-grid.Min.x) / (float64)(grid.Resolution)))
 	minYGridCoord1 := (uint)(math.Floor((float64)(minPoint.z-grid.Min.z) / (float64)(grid.Resolution)))
 	maxXGridCoord1 := (uint)(math.Floor((float64)(maxPoint.x-grid.Min.x) / (float64)(grid.Resolution)))
